@@ -176,6 +176,19 @@ func (s *sess) textOut(kind string) (path string, read func() string) {
 	}
 }
 
+// reuseTextOut: the report file of a command value that is executed a second time (reports are appended: what the
+// first run wrote is removed).
+func (s *sess) reuseTextOut(p string) (string, func() string) {
+	os.Truncate(p, 0)
+	return p, func() string {
+		b, err := os.ReadFile(p)
+		if err != nil {
+			return ""
+		}
+		return string(b)
+	}
+}
+
 // runCmd executes a command, recovering a panic.  copy and sum-copy do not close the
 // destination handle when reading the source fails (the descriptor and its flock live until
 // the garbage collector finalises the os.File): within one process the next command on that
@@ -386,7 +399,12 @@ func init() {
 			isaw = " " + intr.wait()
 		}
 		s.echo(fmt.Sprintf("%s nows=%s files=%s clock=%d,%d%s%s", strings.Join(tk, " "), csvOrDash(nows), csvOrDash(files), t0, t1, liveAt, isaw))
-		s.emit("clicopy", statusOf(err, panicked), recs)
+		if a.num("nostatus", 0) == 1 && !panicked {
+			// which of several failures is reported is not determined: only what the files hold afterwards is compared
+			s.obs("clicopy done")
+		} else {
+			s.emit("clicopy", statusOf(err, panicked), recs)
+		}
 		if intr != nil {
 			s.obs("clicopy-intruder %s", intr.result)
 		}
@@ -538,7 +556,11 @@ func init() {
 			liveAt = " liveat=" + <-liveDone
 		}
 		s.echo(fmt.Sprintf("%s nows=%s items=%s clock=%d,%d%s", strings.Join(tk, " "), csvOrDash(nows), items, t0, t1, liveAt))
-		s.emit("clisumcopy", statusOf(err, panicked), recs)
+		if a.num("nostatus", 0) == 1 && !panicked {
+			s.obs("clisumcopy done")
+		} else {
+			s.emit("clisumcopy", statusOf(err, panicked), recs)
+		}
 	}
 	handlers["clisumdiff"] = func(s *sess, tk []string) {
 		a := parseKV(tk[1:])
@@ -578,6 +600,12 @@ func init() {
 				From: wt.Timestamp(a.num("from", 0)), Until: wt.Timestamp(a.num("until", 0)),
 				ArchiveID: int(a.num("archive", -1)), ShowHeader: a.num("header", 1) == 1, TextOut: to,
 			}
+			liveAt := ""
+			if a.num("twice", 0) == 1 && !remote {
+				// twice=1: this very command value has been executed before (see viewTwiceFirst)
+				liveAt = " live=" + filepath.Join(sb, sr) + " liveat=" + s.viewTwiceFirst(filepath.Join(s.dir, sb, sr), func() { runCmd(c.Execute) })
+				_, readOut = s.reuseTextOut(to)
+			}
 			t0 := time.Now().Unix()
 			err, panicked := s.execute(a, c, nil)
 			t1 := time.Now().Unix()
@@ -585,7 +613,7 @@ func init() {
 				continue
 			}
 			recs, _ := parseOutput(readOut())
-			s.echo(fmt.Sprintf("%s nows=%d clock=%d,%d", strings.Join(tk, " "), t0, t0, t1))
+			s.echo(fmt.Sprintf("%s nows=%d clock=%d,%d%s", strings.Join(tk, " "), t0, t0, t1, liveAt))
 			s.emit("cliview", statusOf(err, panicked), recs)
 			return
 		}
@@ -602,6 +630,12 @@ func init() {
 				SrcBase: srcBase, SrcRelPath: joinRel(prefix, sr),
 				From: wt.Timestamp(a.num("from", 0)), Until: wt.Timestamp(a.num("until", 0)),
 				ArchiveID: int(a.num("archive", -1)), ShowHeader: a.num("header", 1) == 1, SortsByTime: a.num("sort", 0) == 1, TextOut: to,
+			}
+			liveAt := ""
+			if a.num("twice", 0) == 1 && !remote {
+				// twice=1: this very command value has been executed before (see viewTwiceFirst)
+				liveAt = " live=" + filepath.Join(sb, sr) + " liveat=" + s.viewTwiceFirst(filepath.Join(s.dir, sb, sr), func() { runCmd(c.Execute) })
+				_, readOut = s.reuseTextOut(to)
 			}
 			t0 := time.Now().Unix()
 			err, panicked := s.execute(a, c, nil)
@@ -642,7 +676,7 @@ func init() {
 				}
 				return a[3] < b[3]
 			})
-			s.echo(fmt.Sprintf("%s nows=%d clock=%d,%d", strings.Join(tk, " "), t0, t0, t1))
+			s.echo(fmt.Sprintf("%s nows=%d clock=%d,%d%s", strings.Join(tk, " "), t0, t0, t1, liveAt))
 			st := statusOf(err, panicked)
 			if a.num("sort", 0) == 1 && st == "ok" && a.str("textout", "file") == "file" {
 				s.obs("cliviewraw %s sorted=%v", st, sorted)
@@ -662,7 +696,8 @@ func init() {
 		s.closeAll()
 		for try := 0; ; try++ {
 			to, readOut := s.textOut(a.str("textout", "file"))
-			dest := filepath.Join(s.dir, a["dest"])
+			// the name is handed over as it is written ("lnk/../x.wsp" is the operating system's business)
+			dest := s.dir + "/" + a["dest"]
 			existed := false
 			if _, err := os.Stat(dest); err == nil {
 				existed = true
